@@ -9,9 +9,10 @@ The type is decided by the presence of `#` alone (not by the number of digits, a
 `&` suffix and no exponent part in this grammar).  The value is modelled as the exact rational
 `digits / 10^k` rounded to nearest, ties to even, in binary32 / binary64 (`roundNearestEven`, defined
 here with core `Rat` / `Int` / `Nat` only); a magnitude that rounds to `2^(emax+1)` or more is an
-infinity (Rust's `parse` returns `Ok(inf)`, the parser keeps it).  A minus sign directly in front of the
-literal negates the float (`SingleLiteral(-f)`), i.e. flips the sign and keeps the magnitude; `-.0` is
-the negative zero.
+infinity (Rust's `parse` returns `Ok(inf)`), and the parser answers the parse error `Overflow` for it
+(`Ok(f) if f.is_finite()` / `Ok(_) => Err(ParserError::Overflow)`).  A minus sign directly in front of
+the literal negates the float (`SingleLiteral(-f)`), i.e. flips the sign and keeps the magnitude; `-.0`
+is the negative zero; an `Overflow` stays an `Overflow`.
 -/
 namespace RbModel.FloatLit
 open RbModel.Expr
@@ -74,6 +75,11 @@ def FVal.neg : FVal → FVal
   | .fin s m => .fin (!s) m
   | .inf s => .inf (!s)
 
+/-- `f32::is_finite` / `f64::is_finite` (a parsed decimal is never a NaN). -/
+def FVal.isFinite : FVal → Bool
+  | .fin _ _ => true
+  | .inf _ => false
+
 /-- The rational a finite float denotes. -/
 def FVal.toRat? : FVal → Option Rat
   | .fin false m => some m
@@ -94,22 +100,35 @@ inductive FLit where
   | double (v : FVal)
   deriving Repr, DecidableEq
 
+/-- What the literal parser answers: a literal, or the parse error `ParserError::Overflow`. -/
+inductive FRes where
+  | ok (l : FLit)
+  | overflow
+  deriving Repr, DecidableEq
+
+/-- The format the suffix selects: `#` → binary64, none → binary32. -/
+def fmtOf (t : FracTok) : Fmt := if t.pound then double else single
+
 /-- The exact decimal the text denotes: all digits read as one number, over `10^k` for `k` fraction digits
 (`format!("{}.{}", left, frac)`; the `"0"` substituted for a missing integer part does not change it). -/
 def exact (t : FracTok) : Rat :=
   (digitsVal 10 (t.intDigits ++ t.fracDigits) : Rat) / ((10 ^ t.fracDigits.length : Nat) : Rat)
 
 /-- `single_or_double_literal::parser`: `#` present → `parse::<f64>` → `DoubleLiteral`, otherwise
-`parse::<f32>` → `SingleLiteral`. -/
-def fracLit (t : FracTok) : FLit :=
-  if t.pound then .double (value double (exact t)) else .single (value single (exact t))
+`parse::<f32>` → `SingleLiteral`; a result that is not finite → `Err(ParserError::Overflow)`. -/
+def fracLit (t : FracTok) : FRes :=
+  if t.pound then
+    (if (value double (exact t)).isFinite then .ok (.double (value double (exact t))) else .overflow)
+  else
+    (if (value single (exact t)).isFinite then .ok (.single (value single (exact t))) else .overflow)
 
 /-- `negative_number_literal`: a minus sign directly followed by a literal with a fraction negates the float
-and keeps the type. -/
-def negFracLit (t : FracTok) : FLit :=
+and keeps the type; the error of the literal parser passes through. -/
+def negFracLit (t : FracTok) : FRes :=
   match fracLit t with
-  | .single v => .single v.neg
-  | .double v => .double v.neg
+  | .ok (.single v) => .ok (.single v.neg)
+  | .ok (.double v) => .ok (.double v.neg)
+  | .overflow => .overflow
 
 def FLit.isDouble : FLit → Bool
   | .single _ => false
